@@ -1,6 +1,6 @@
 """C10 - output files are written safely: no stray writes, no clobbering, all-or-nothing.
 Scenario machinery, resolver, Coq printers: harness/checks/c09.py (one shared model of the run)."""
-import copy, json, re
+import copy, json, os, re
 from common import *
 from checks import c09 as P
 
@@ -64,10 +64,47 @@ def set_force(rng, scn, mode):
                     t["force-file-write"] = pv if mode == "iface-same" else (not pv)
 
 
+OUTSIDE_SRC = ("parent-link", "link-dangling")     # only for outputs that are not in a source package directory
+LINK_STATES = ["link-file", "link-file-outside", "link-dangling", "link-dir", "parent-link"]
+# every third scenario has no failing stage and puts ONE output into a state taken round-robin from this
+# list, with force-file-write alternately true and false: each (state, force) pair occurs in every run
+FOCUS = [(st, f) for f in (True, False) for st in ["absent", "same", "stale", "longer", "user", "dir"] + LINK_STATES]
+
+
+def put_state(s, rel, st, pkgname):
+    """initial state of the output whose name is rel (below the scenario root)"""
+    d, fn = rel.rsplit("/", 1)
+    n = len(s["links"])
+    if st in ("same", "stale", "longer"):
+        s["init_from_ref"][rel] = st
+    elif st == "user":
+        s["init"][rel] = b"package " + pkgname.encode() + b"\n\n// written by hand, not by mockery\n"
+    elif st == "dir":
+        s["init"][rel] = "DIR"
+        s["init"][rel + "/keep.txt"] = b"a file inside the directory that occupies the output path\n"
+    elif st == "link-file":          # symlink to an existing regular file elsewhere in the module
+        s["init"]["m/linktargets/t%d.go" % n] = b"package " + pkgname.encode() + b"\n\n// the file a symlink at an output path points to\n"
+        s["links"][rel] = os.path.relpath("m/linktargets/t%d.go" % n, d)
+    elif st == "link-file-outside":  # ... to a regular file outside the module
+        s["init"]["other/t%d.go" % n] = b"package " + pkgname.encode() + b"\n\n// link target outside the module\n"
+        s["links"][rel] = os.path.relpath("other/t%d.go" % n, d)
+        s["oracle_only"] = True      # the go.mod search starts from the link's directory, the model's from the target's
+    elif st == "link-dangling":      # ... to a path that does not exist (its directory does)
+        s["init"]["m/linktargets/keep%d.txt" % n] = b"keeps the directory\n"
+        s["links"][rel] = os.path.relpath("m/linktargets/missing%d.go" % n, d)
+    elif st == "link-dir":           # ... to a directory
+        s["init"]["m/linktargets/d%d/keep.txt" % n] = b"inside the directory a symlink at an output path points to\n"
+        s["links"][rel] = os.path.relpath("m/linktargets/d%d" % n, d)
+    elif st == "parent-link":        # the directory that holds the output is a symlink to another directory
+        s["init"]["m/linktargets/pd%d/keep.txt" % n] = b"inside the real output directory\n"
+        s["links"][d] = os.path.relpath("m/linktargets/pd%d" % n, d.rsplit("/", 1)[0])
+
+
 def gen_c10(rng, i):
-    stage = STAGES[i % len(STAGES)]
-    for attempt in range(40):
-        layout = rng.choice(["default", "periface", "mocksdir", "multi", "pkgoverride"])
+    focus = FOCUS[(i // 3) % len(FOCUS)] if i % 3 == 0 else None
+    stage = None if focus else STAGES[i % len(STAGES)]
+    for attempt in range(60):
+        layout = rng.choice(["mocksdir", "pkgoverride"] if focus and focus[0] in OUTSIDE_SRC else ["default", "periface", "mocksdir", "multi", "pkgoverride"])
         pkgs = rng.sample(["a", "b", "c"], rng.randint(2, 3))
         if layout in ("default", "periface") and rng.random() < 0.3:
             pkgs += ["r", "r/s1", "r/s2"]
@@ -85,31 +122,52 @@ def gen_c10(rng, i):
         outs = outputs(s)
         if not outs or len({q["key"] for l in outs.values() for _, q in l}) > 5:
             continue
+        if focus and focus[0] in OUTSIDE_SRC and not any(r.rsplit("/", 1)[0] not in ["m/" + n for n in s["pkgs"]] for r in outs):
+            continue
         break
     else:
         raise RuntimeError("generator: no C10 scenario for stage %s" % stage)
-    mode = FORCE_MODES[(i // len(STAGES) + i) % len(FORCE_MODES)]
-    set_force(rng, s, mode)
-    s["tags"].append("force:" + mode)
+    if focus:
+        s["root"]["force-file-write"] = focus[1]
+        for e in s["packages"].values():
+            if P.lvl(P.lvl(e, "config"), "force-file-write") is not None:
+                del e["config"]["force-file-write"]
+        s["tags"].append("force:focus-%s" % focus[1])
+    else:
+        mode = FORCE_MODES[(i // len(STAGES) + i) % len(FORCE_MODES)]
+        set_force(rng, s, mode)
+        s["tags"].append("force:" + mode)
     s["init"] = P.unrelated_files(rng, s)
     s["init_from_ref"] = {}
     states = {}
-    for rel, lst in sorted(outputs(s).items()):
-        st = rng.choice(STATES)
+    outs = sorted(outputs(s).items())
+    fidx = None
+    if focus:
+        cand = [k for k, (rel, _) in enumerate(outs) if focus[0] not in OUTSIDE_SRC or rel.rsplit("/", 1)[0] not in ["m/" + n for n in s["pkgs"]]]
+        fidx = rng.choice(cand)
+    linked_dirs = set()
+    for k, (rel, lst) in enumerate(outs):
+        if rel.rsplit("/", 1)[0] in linked_dirs:
+            st = "absent"
+        elif k == fidx:
+            st = focus[0]
+        else:
+            st = rng.choice(STATES + (LINK_STATES[:1] + LINK_STATES[2:4] if rng.random() < 0.3 else []))
+        if st in OUTSIDE_SRC and rel.rsplit("/", 1)[0] in ["m/" + n for n in s["pkgs"]]:
+            st = "link-file"        # a dangling link / a linked directory inside a source package would break `go list`
+        if st == "parent-link":
+            d = rel.rsplit("/", 1)[0]
+            if any(r2 != rel and (r2.startswith(d + "/") or r2 in states) and r2.rsplit("/", 1)[0] == d for r2, _ in outs[:k]):
+                st = "absent"       # another output was already placed in that directory
+            else:
+                linked_dirs.add(d)
         states[rel] = st
-        pkgname = lst[0][1]["pkgname"] or "x"
-        if st in ("same", "stale", "longer"):
-            s["init_from_ref"][rel] = st
-        elif st == "user":
-            s["init"][rel] = b"package " + pkgname.encode() + b"\n\n// written by hand, not by mockery\n"
-        elif st == "dir":
-            s["init"][rel] = "DIR"
-            s["init"][rel + "/keep.txt"] = b"a file inside the directory that occupies the output path\n"
+        put_state(s, rel, st, lst[0][1]["pkgname"] or "x")
     s["states"] = states
     for st in set(states.values()):
         s["tags"].append("state:" + st)
     # a permission fault now and then
-    if rng.random() < 0.22:
+    if not focus and rng.random() < 0.22:
         rel = rng.choice(sorted(states))
         parent = rel.rsplit("/", 1)[0]
         if states[rel] == "absent" and (parent in ("m/a", "m/b", "m/c", "m/r", "m/r/s1", "m/r/s2")):
@@ -118,7 +176,7 @@ def gen_c10(rng, i):
         elif states[rel] in ("user", "stale", "longer"):
             s["ro"].append(rel)
             s["tags"].append("ro:file")
-        elif states[rel] == "absent" and rel.startswith("m/mocks/"):
+        elif states[rel] == "absent" and rel.startswith("m/mocks/") and not s["links"]:
             s["init"].setdefault("m/mocks/unrelated.txt", b"in a future output directory\n")
             s["ro"].append("m/mocks")
             s["tags"].append("ro:grandparent-dir")
@@ -160,7 +218,7 @@ def oracle_c10(res):
             errs.append("stray write: %s is not a designated output (before %s, after %s)" % ("/".join(path), b, a))
     for path, lst in sorted(outs.items()):
         b, a = before.get(path), after.get(path)
-        ref = res["ref_contents"].get(path)
+        ref = P.ref_of(res, lst[0][1])
         name = "/".join(path)
         g = gov[lst[0][1]["key"]]                # the first mock of the file: its config governs the file
         fails = file_fails(world, lst, g)
@@ -177,8 +235,8 @@ def oracle_c10(res):
         if res["run"]["cls"] == "Exit0":
             if b is not None and not g["force"]:
                 errs.append("exit status 0 although %s was occupied and force-file-write is false" % name)
-            if ref is not None and a != ref:
-                errs.append("exit status 0 but output %s does not hold the complete new content" % name)
+            if a != ref:
+                errs.append("exit status 0 although output %s does not hold the complete new content" % name)
     return errs
 
 
@@ -192,7 +250,7 @@ def check(ctx, only=None):
         pairs = [(P.scn_from_replay(x), x.get("base")) for x in only]
         pairs = [(s, (dict(P.new_scn(b["pkgs"]), **b) if b else None)) for s, b in pairs]
     else:
-        n = 900 if big else 64
+        n = 900 if big else 72
         pairs = [gen_c10(ctx.rng, i) for i in range(n)]
     results = P.run_pipeline_stream(ctx, pairs, None)
     hist, oracle_fail, terms, tidx, samples = {}, [], [], [], []
@@ -210,7 +268,7 @@ def check(ctx, only=None):
         if errs:
             oracle_fail.append(P.to_replay(res, errs))
         t, nkeys = P.build_case(res)
-        if nkeys <= 6:
+        if nkeys <= 6 and not scn.get("oracle_only"):
             terms.append(t)
             tidx.append(res)
         if len(samples) < 3:
